@@ -272,7 +272,11 @@ func verifRun(c *mon.Case) *mon.Result {
 		opts = append(opts, Memoize(true))
 	}
 	if c.Stats {
+		st.ExprCnt = c.StatsPre
 		opts = append(opts, Statistics(&st, "no match"))
+	}
+	if c.DebugQuiet {
+		opts = append(opts, Debug(true))
 	}
 	if c.Debug {
 		opts = append(opts, Debug(true))
